@@ -17,7 +17,7 @@ from . import core
 from .core import Rng, derive, wall, jdump
 
 PROPS = ["C01", "C03", "C04", "C05", "C08", "C09", "C11", "C14", "C18", "C19"]
-RUN_WALL_LIMIT = int(os.environ.get("QSIM_RUN_LIMIT", "300"))  # seconds, per run (hang guard)
+RUN_WALL_LIMIT = int(os.environ.get("QSIM_RUN_LIMIT", "900"))  # seconds, per run (hang guard)
 
 
 def load_prop(pid: str):
